@@ -3,6 +3,7 @@ NEXT ANext
 INVARIANT OnlyPermittedOpened
 INVARIANT BlockedNotLoaded
 INVARIANT NothingWithNone
+INVARIANT SandboxRemoteBaseOpensNothing
 CONSTRAINT AEmit
 CHECK_DEADLOCK FALSE
 
